@@ -433,6 +433,11 @@ func NewOpLib() *OpLib {
 	})
 	// a small long (liabilities 40 USDC): per block its borrow interest is below one custody unit
 	// while its funding fee is not — the two settle through different code paths
+	// a HUGE long (custody ~ 20 % of pool 1's ATOM): large liquidity exits then collide with the rule
+	// that the pool must keep at least the custody it owes
+	l.Add("perp_open_long_t3_huge", "perp_open", 0, func(w *World, p *BlockPlan) {
+		p.Txs = one("t3", perpOpen(w.A("t3"), perptypes.Position_LONG, "5", C("uusdc", 2e11), mulDecStr(w.Env.Atom, "2")))
+	})
 	l.Add("perp_open_long_t3_small", "perp_open", 0, func(w *World, p *BlockPlan) {
 		p.Txs = one("t3", perpOpen(w.A("t3"), perptypes.Position_LONG, "5", C("uusdc", 1e7), mulDecStr(w.Env.Atom, "2")))
 	})
